@@ -136,9 +136,12 @@ class DeferDriver:
             plans.extend(((pos, 'disable_enable'),) for pos in range(n))
             ops.extend(('enable', plan) for plan in plans)
         if backlog:
-            # an event dispatched now has no specified position relative to
-            # the backlog: only retry or disable are offered
+            # enabled with a backlog (a release was aborted by an exception):
+            # a dispatch is delivered at once (the dispatcher is enabled);
+            # the backlog stays pending until the next enabling assignment
             ops.append(('disable',))
+            for ev in EVENTS:
+                ops.append(('dispatch', ev))
             return ops
         if ctx.enabled:
             ops.append(('disable',))
@@ -180,12 +183,16 @@ class DeferDriver:
                 raise Violation('dispatch_raised', f'{exc!r}')
             listening = self._listening(ctx, ev)
             if ctx.enabled:
+                if ctx.pending:
+                    ctx.hits['dispatch_while_enabled_with_backlog'] += 1
                 got = sorted(r[0] for r in ctx.log)
                 if got != listening or any(r[2] is not payload
                                            for r in ctx.log):
                     raise Violation('enabled_dispatch_delivers_now',
                                     f'dispatch({ev}) reached {ctx.log}, '
-                                    f'listeners {listening}')
+                                    f'listeners {listening}; backlog '
+                                    f'{[(e, p) for e, p, _ in ctx.pending]}',
+                                    backlog=bool(ctx.pending))
             else:
                 if ctx.log:
                     raise Violation('nothing_delivered_while_disabled',
@@ -367,13 +374,16 @@ def run(tier, rep):
         'the remaining listeners of the one event whose callback raised or '
         'disabled may or may not receive it; whether the exception '
         'propagates is free',
-        'after a release aborted by an exception only retry / disable are '
-        'offered until the backlog is gone',
+        'after a release aborted by an exception the dispatcher is enabled '
+        'with a backlog: events dispatched then are delivered at once (C03), '
+        'the backlog keeps its order and is released by the next enabling '
+        'assignment',
         'callbacks do not register / unregister listeners during a release',
     ]
     rep.require_hits(release_backlog=1, fault_raise=1, fault_disable=1,
                      fault_disable_dispatch=1, fault_disable_enable=1,
                      dispatch_behind_backlog=1,
+                     dispatch_while_enabled_with_backlog=1,
                      listeners_changed_while_pending=1,
                      queued_without_listener=1)
     for name, (driver, kw) in drivers(tier).items():
